@@ -169,6 +169,8 @@ def run(ctx):
     # that a path containing spaces stays whole.  Found anywhere in memory_maps(),
     # nested helpers included; other splits (key lines) are not constrained.
     allnodes = list(ast.walk(mm.node))
+    for h_ in repo.new_helpers_called_from(pm, "Process.memory_maps"):
+        allnodes += list(ast.walk(h_.node))     # a block generator lifted out of the method
     hsplits = []
     for st_ in allnodes:
         if isinstance(st_, ast.Assign) and isinstance(st_.targets[0], ast.Tuple) \
@@ -346,11 +348,14 @@ def run(ctx):
         if not any(isinstance(x, ast.Constant) and x.value == " (deleted)"
                    for x in ast.walk(fi.node)):
             continue
-        if any(p_.node is not fi.node and any(x is fi.node for x in ast.walk(p_.node))
-               for p_ in repo.all_funcs(pm)):
-            continue        # nested: analysed with its parent
+        # each function on its own CFG: the statements of a nested function belong to
+        # that nested function, not to its parent
         fcfg = A.cfg(fi)
-        for st in ast.walk(fi.node):
+        nested_ = [x for x in ast.walk(fi.node) if isinstance(x, (ast.FunctionDef, ast.AsyncFunctionDef))
+                   and x is not fi.node]
+        own_ = [x for x in ast.walk(fi.node)
+                if not any(x is not nf and any(y is x for y in ast.walk(nf)) for nf in nested_)]
+        for st in own_:
             strip = None
             if isinstance(st, ast.Assign) and isinstance(st.value, ast.Subscript) \
                     and isinstance(st.value.slice, ast.Slice) \
